@@ -394,6 +394,9 @@ def ev_filter(e, env):
     try:
         outer = ev(pred, env)
     except Undecided:
+        if not v:
+            # nothing will evaluate the filter expression per item: what it is (an index? a predicate?) stays unknown
+            raise
         outer = None
     if kind(outer) == "number":
         raise Undecided("filter expression that is a number outside the item scope")
